@@ -73,7 +73,7 @@ fn build_wrapped_loop_choice_block(
             fallback_continuation,
             Some(continuation_path_abs.as_str()),
             true,
-            LooseEndNoFallback::Done,
+            LooseEndNoFallback::None,
         ) {
             continuation_container.push(token);
         }
